@@ -267,6 +267,14 @@ def make_target(cat, case):
     from scinumtools.units import Quantity, Unit
     from scinumtools.units.base_units import BaseUnits
     form, ev = case.get("form", "str"), case["ev"]
+    if case.get("empty_target"):            # the empty unit (a plain number), named in every way
+        if form == "none":
+            return None
+        if form == "dict":
+            return {}
+        if form == "baseunits":
+            return BaseUnits()
+        return Quantity(case["tm"])        # q1 / qm
     if form == "str":
         return ev
     if form == "baseunits":
@@ -324,18 +332,21 @@ def run_impl(case, cat=None):
             return {"init": "err:%s" % type(e).__name__}
         out["before"] = U.snapshot(q)
         out["units0"] = list(q.baseunits.units)
-        if qform:
-            out["value"] = "n/a"       # value() takes a unit expression, not a Quantity
+        if qform or (case.get("empty_target") and case["form"] != "baseunits"):
+            # value() takes a unit expression, not a Quantity; None / {} mean "no conversion requested"
+            out["value"] = "n/a"
         else:
             try:
-                out["value"] = U.as_list(q.value(make_target(cat, case)))
+                v = q.value(make_target(cat, case))
+                out["value"] = U.as_list(v)
+                out["value_shape"] = list(np.shape(v))
             except Exception as e:
                 out["value"] = "err"
                 out["value_exc"] = type(e).__name__
         out["mid"] = U.snapshot(q)
         try:
             target = make_target(cat, case)
-            out["target_expr"] = target.baseunits.expression if qform else target_expression(case["ev"])
+            out["target_expr"] = target.baseunits.expression if qform else (None if case.get("empty_target") else target_expression(case["ev"]))
         except Exception as e:
             return {"init": "err-target:%s" % type(e).__name__}
         try:
@@ -346,6 +357,7 @@ def run_impl(case, cat=None):
             out["to_exc"] = type(e).__name__
         out["after"] = U.snapshot(q)
         out["after_val"] = U.as_list(q.magnitude.value)
+        out["after_shape"] = list(np.shape(q.magnitude.value))
         out["after_units"] = list(q.baseunits.units)
         if qform:
             out["target_after"] = U.snapshot(target)
@@ -492,11 +504,11 @@ def uncertain_variant(cat, c, rng):
 def run_cases(ctx, cat, cases):
     usable = []
     for c in cases:
-        if U.parsed_as_expected(cat, c["eu"], c["iu"]) and U.parsed_as_expected(cat, c["ev"], c["iv"]) \
-                and c["ev"] is not None:
+        if U.reads_as_intended(cat, c["iu"]) and U.reads_as_intended(cat, c["iv"]) \
+                and (c["ev"] is not None or c.get("empty_target")):
             usable.append(c)
         else:
-            ctx.count("skipped.parser-reads-differently")
+            ctx.count("skipped.token-ambiguous-in-the-grammar")
     reqs = [conv_req(cat, c) for c in usable]
     res = ctx.driver.ask_many(reqs)
     for c, r in zip(usable, res):
@@ -540,8 +552,8 @@ def triple_stream(ctx, cat, count):
         e = rng.choice(EXPS)
         iu, iw, iv = ([(pick_prefix(cat, rng, s), s, e)] for s in (u, w, v))
         eu, ew, ev = (U.render_items(i) for i in (iu, iw, iv))
-        if not all(U.parsed_as_expected(cat, ee, ii) for ee, ii in ((eu, iu), (ew, iw), (ev, iv))):
-            ctx.count("skipped.parser-reads-differently")
+        if not all(U.reads_as_intended(cat, ii) for ii in (iu, iw, iv)):
+            ctx.count("skipped.token-ambiguous-in-the-grammar")
             continue
         x = pick_value(rng)
         fs = [cat.factor_exact(i) for i in (iu, iw, iv)]
@@ -823,8 +835,8 @@ def quantity_history_stream(ctx, cat, count):
     for _ in range(count):
         hist.append(gen_quantity_history(cat, rng, groups))
     hist = [(x, iu, ops) for x, iu, ops in hist
-            if U.parsed_as_expected(cat, U.render_items(iu), iu)
-            and all(o["iv"] is None or U.parsed_as_expected(cat, U.render_items(o["iv"]), o["iv"]) for o in ops)]
+            if U.reads_as_intended(cat, iu)
+            and all(o.get("iv") is None or U.reads_as_intended(cat, o["iv"]) for o in ops)]
     reqs = []
     for x, iu, ops in hist:
         cur = iu
@@ -970,7 +982,7 @@ def unit_history_stream(ctx, cat, count):
     ]
     for _ in range(count):
         seqs.append(gen_unit_history(cat, rng, groups))
-    seqs = [q for q in seqs if all(U.parsed_as_expected(cat, U.render_items(o[k]), o[k]) for o in q for k in ("iu", "iv"))]
+    seqs = [q for q in seqs if all(U.reads_as_intended(cat, o[k]) for o in q for k in ("iu", "iv"))]
     reqs = []
     for q in seqs:
         for o in q:
